@@ -61,7 +61,7 @@ struct FrameModelListener : Listener {
             ++columns;
             std::vector<SFrame> want = pre;
             for (size_t f = 0; f < want.size() && f < in.lastCol.size(); ++f) {
-                SFrame add = takeFrame(in.lastCol[f]);
+                SFrame add = f < in.lastColModel.size() ? in.lastColModel[f] : takeFrame(in.lastCol[f]);
                 if (k == "pcol") for (auto &p : add.pts) want[f].pts.push_back(p);
                 else for (size_t s = 0; s < want[f].subs.size() && s < add.subs.size(); ++s) for (auto &c : add.subs[s]) want[f].subs[s].push_back(c);
             }
